@@ -80,7 +80,14 @@ def _worker_init(modname, fnname):
     _WORKER_FN = getattr(importlib.import_module(modname), fnname)
 
 def _worker_run(chunk):
-    return [_WORKER_FN(line) for line in chunk]
+    out = []
+    for line in chunk:
+        try:
+            out.append(_WORKER_FN(line))
+        except Exception as e:   # a bug in OUR oracle / codec must never look like a verdict about the code under test
+            import traceback
+            out.append((f'harness-error:{type(e).__name__}: {e} @ {traceback.extract_tb(e.__traceback__)[-1].name}', []))
+    return out
 
 def run_impl(modname, fnname, lines, procs=None):
     """evaluate `modname.fnname(line)` (which runs the real code) on every line, in worker processes"""
